@@ -19,7 +19,7 @@ def depslib_trusted():
             "Model/DepsReplay.guess is untrusted: acceptance re-runs Model/Deps.run on the guessed schedule"]
 
 
-def contention(ctx, parts=("contend", "generic", "names", "invalid", "custom", "verbose", "wide", "escaped", "ambient", "api"), rounds=None, knob_env=None):
+def contention(ctx, parts=("contend", "generic", "names", "invalid", "custom", "verbose", "wide", "escaped", "ambient", "api", "long"), rounds=None, knob_env=None):
     """C01 under contention: a lost update in the registry only shows when several goroutines miss
     the same fresh key at the same instant (oracle only; the theorem side is C01_at_most_once)."""
     if knob_env is None:
